@@ -117,6 +117,23 @@ StrImage(cl, pad) ==
   [Base(cl) EXCEPT !.secs = <<Sec(Dot(<<112>>), N(1), Z, Z, Rep(7, pad), N(pad), Z, Z, N(1), Z),
                               Sec(Dot(<<115, 116>>), N(3), Z, Z, StrTable, N(Len(StrTable)), Z, Z, N(1), Z)>>]
 
+\* a string of more than 1024 read chunks (>= 65536 bytes): a 90-byte pattern repeated, followed by a short string.  The table is
+\* emitted in run-length form (pattern x repeat) and so are the expected strings; LongCompactEqDeclarative ties both to CStrAt.
+LongPat == [i \in 1..90 |-> 33 + i]
+LongRep == 730
+LongTail == <<0, 97, 98, 0>>
+RepSeq(p, r) == [i \in 1..(Len(p) * r) |-> p[((i - 1) % Len(p)) + 1]]
+LongTable == <<0>> \o RepSeq(LongPat, LongRep) \o LongTail
+LongEnd == 90 * LongRep                                             \* offset of the last pattern byte
+LongOffsets == {0, 1, 2, 91, 100, 165, 166, 167, 229, 65000, LongEnd, LongEnd + 1, LongEnd + 2, LongEnd + 3, LongEnd + 4}
+Compact(o) == IF o >= 1 /\ o <= LongEnd
+              THEN [pre |-> SubSeq(LongPat, ((o - 1) % 90) + 1, 90), pat |-> LongPat, rep |-> LongRep - ((o - 1) \div 90) - 1]
+              ELSE [pre |-> CStrAt(LongTail, IF o = 0 THEN 0 ELSE o - LongEnd - 1).s, pat |-> <<>>, rep |-> 0]
+Expand(c) == c.pre \o RepSeq(c.pat, c.rep)
+LongImage(cl) ==
+  [Base(cl) EXCEPT !.secs = <<Sec(Dot(<<112>>), N(1), Z, Z, Rep(7, 37), N(37), Z, Z, N(1), Z),
+                              Sec(Dot(<<115, 116>>), N(3), Z, Z, LongTable, N(Len(LongTable)), Z, Z, N(1), Z)>>]
+
 (* --------------------------------- data paths --------------------------- *)
 \* zlib stream of stored deflate blocks (RFC 1950 2.2, RFC 1951 3.2.4) and its Adler-32 (RFC 1950 8.2)
 AdlerMod == 65521
@@ -158,6 +175,8 @@ DataImage(cl, kind, n, blk) ==
                               Seg(N(0), N(4), Z, Z, Z, Z, Z, N(1)), Seg(N(0), N(4), Z, Z, Z, Z, Z, N(1))>>]
 Sizes == {0, 1, 63, 64, 65, 300, 4096}
 InterpStr == <<47, 108, 105, 98, 47, 108, 100, 46, 115, 111, 0>>                 \* "/lib/ld.so"
+\* the .interp contents may be padded behind the terminator (alignment padding; a further string): the name ends at the first NUL
+InterpData(n) == InterpStr \o (CASE n % 4 = 0 -> <<>> [] n % 4 = 1 -> <<0>> [] n % 4 = 2 -> <<0, 0, 0>> [] OTHER -> <<120, 0, 0>>)
 
 (* --------------------------------- the machine -------------------------- *)
 Init ==
@@ -166,6 +185,7 @@ Init ==
   /\ CASE mode = "inseg" -> obj \in InsegSeeds
        [] mode = "addr" -> \E cl \in ClsLe, li \in 1..Len(Layouts) : obj = [cl |-> cl, li |-> li]
        [] mode = "strings" -> \E cl \in ClsLe, pad \in {0, 1, 37, 63} : obj = [cl |-> cl, pad |-> pad]
+       [] mode = "longstr" -> \E cl \in ClsLe : obj = [cl |-> cl]
        [] mode = "data" -> \E cl \in ClsLe, k \in DataKinds, n \in Sizes \cup {70000}, blk \in {65535, 100} :
                               /\ (blk = 100 => k = "zlib" /\ n \in {0, 300})
                               /\ (n = 70000 => k = "nobits")
@@ -193,14 +213,20 @@ Case ==
          LET im == StrImage(obj.cl, obj.pad)   os == SetToSortSeq(StrOffsets, LAMBDA p, q : p < q) IN
          [mode |-> mode, chunks |-> Chunks(im), secidx |-> UserIndex(im, 2),
           strings |-> [i \in 1..Len(os) |-> <<os[i], CStrAt(StrTable, os[i]).s>>]]
+    [] mode = "longstr" ->
+         LET im == LongImage(obj.cl)   cs == Chunks(im)   os == SetToSortSeq(LongOffsets, LAMBDA p, q : p < q)
+             off == cs[3][1]                               \* chunk 3 = data of user section 2 (after the header and section 1)
+         IN [mode |-> "strings", secidx |-> UserIndex(im, 2),
+             chunks |-> [cs EXCEPT ![3] = <<off, <<0>>, 1>>] \o << <<off + 1, LongPat, LongRep>>, <<off + 1 + LongEnd, LongTail, 1>> >>,
+             strings |-> [i \in 1..Len(os) |-> <<os[i], Compact(os[i])>>]]
     [] mode = "data" ->
          LET im0 == DataImage(obj.cl, obj.kind, obj.n, obj.blk)
              doff == SecOff(im0, 2)   dlen == Len(im0.secs[2].data)
              \* the loadable segment covers exactly the data section's file bytes; the interpreter string sits in front of it
-             im1 == [im0 EXCEPT !.secs[1].data = InterpStr, !.secs[1].size = N(Len(InterpStr))]
+             im1 == [im0 EXCEPT !.secs[1].data = InterpData(obj.n), !.secs[1].size = N(Len(InterpData(obj.n)))]
              off2 == SecOff(im1, 2)
              im == [im1 EXCEPT !.segs[1].offset = N(off2), !.segs[1].filesz = N(dlen), !.segs[1].memsz = N(dlen),
-                               !.segs[2].offset = N(SecOff(im1, 1)), !.segs[2].filesz = N(Len(InterpStr)), !.segs[2].memsz = N(Len(InterpStr)),
+                               !.segs[2].offset = N(SecOff(im1, 1)), !.segs[2].filesz = N(Len(InterpData(obj.n))), !.segs[2].memsz = N(Len(InterpData(obj.n))),
                                !.segs[3].offset = N(off2), !.segs[3].filesz = N(dlen), !.segs[3].memsz = N(dlen), !.segs[3].vaddr = N(64),
                                !.segs[4].offset = N(off2), !.segs[4].filesz = N(obj.n), !.segs[4].memsz = N(obj.n), !.segs[4].vaddr = N(64)]
              \* containment of the data section (by its header: sh_offset, sh_size; not ALLOC, not TLS) in segments 3 and 4
@@ -215,7 +241,7 @@ Case ==
              error |-> obj.kind \in {"zlib_badsize", "zlib_badtype"},
              inseg |-> <<Bit(geo(dlen)), Bit(geo(obj.n))>>,
              twin |-> IF obj.kind = "zlib_twin" THEN Payload2(obj.n) ELSE <<>>,
-             segdata |-> im.secs[2].data, interp |-> SubSeq(InterpStr, 1, Len(InterpStr) - 1),
+             segdata |-> im.secs[2].data, interp |-> CStrAt(InterpData(obj.n), 0).s, interpdata |-> InterpData(obj.n),
              \* where the stream a different compressor would write may be substituted: [file offset, length of the slot,
              \* offset/width of sh_size, of p_filesz]  (harness-side recompression at other zlib levels)
              zslot |-> [off |-> off2 + SizeOf(ChdrF(obj.cl[1]), obj.cl[1]), len |-> dlen - SizeOf(ChdrF(obj.cl[1]), obj.cl[1])]]
@@ -226,6 +252,8 @@ MacroEqGeometric == (mode = "inseg" /\ done) => \A k \in 1..NSecGeom : \A j \in 
                                          InSegStrict(SecAtO(obj, k), SegAt(obj, j)) = Geometric(SecAtO(obj, k), SegAt(obj, j))
 ChunkedEqDeclarative == mode = "strings" => \A o \in StrOffsets : LET d == CStrAt(StrTable, o)   c == ChunkRun(StrTable, o, <<>>) IN
                                               d.ok /\ c.ok /\ d.s = c.s
+LongCompactEqDeclarative == mode = "longstr" => /\ Chunks(LongImage(obj.cl))[3][2] = LongTable
+                                                /\ \A o \in LongOffsets : LET d == CStrAt(LongTable, o) IN d.ok /\ d.s = Expand(Compact(o))
 DeflateRoundTrip == mode = "data" /\ obj.kind = "zlib" => LET p == Payload(obj.n) IN Inflate(Stored(p, obj.blk), 3) = p
 OffsetsInsideSegments == mode = "addr" => \A q \in AddrQueries : LET r == AddressOffsets(Layouts[obj.li], q[1], q[2]) IN
                                              \A i \in 1..Len(r) : \E j \in 1..Len(Layouts[obj.li]) :
